@@ -6,7 +6,7 @@ open Pox Pox.Proto Pox.Revent
   {"variant":{"d24":bool,"d60":bool}, "sources":[{"declared":[et..], "acceptAll":bool, "lazy":bool}, ..], "fuel":n, "ops":[action..],
    "scripts":[[hid, [{"halt":null|bool, "acts":[[action, guarded]..], "ret":ret}, ..]], ..]}
   action: every action carries "s" = index of the source it is performed on, and
-          {"op":"add","et","hid","prio","once","weak":null|o} | {"op":"bind","ets","base","prio","weak"}
+          {"op":"add","et","hid","prio","once","weak":null|o} | {"op":"bind","meths":[[prefix,et]..],"pfx","base","prio","weak"} | {"op":"rmm","pairs":[[et,eid]..]}
         | {"op":"rmh","hid","et":null|t} | {"op":"rme","eid","et"} | {"op":"rmp","et","eid","et2"}
         | {"op":"clear"} | {"op":"drop","o"} | {"op":"count"} | {"op":"raise","et","form":"inst"|"cls","noerr"}
   ret: {"k":"none"|"false"|"true"|"tup0"|"other"} | {"k":"tup1","h"} | {"k":"tup2","h","r"} | {"k":"exc","e":"revent"|"key"|"attr"|"other"}
@@ -39,7 +39,17 @@ def parseAction (j : J) : Except String Action := do
   if op = "add" then
     pure (.add (← j.nat "et") (← j.nat "hid") (← j.int "prio") (← j.boolean "once") (← optNatOf j "weak"))
   else if op = "bind" then
-    pure (.bind (← j.nats "ets") (← j.nat "base") (← j.int "prio") (← optNatOf j "weak"))
+    let ms ← (← j.array "meths").mapM fun m => do
+      match m with
+      | .arr [a, b] => pure ((← a.asNat), (← b.asNat))
+      | _ => .error "meths entry = [prefix, et]"
+    pure (.bind ms (← j.nat "pfx") (← j.nat "base") (← j.int "prio") (← optNatOf j "weak"))
+  else if op = "rmm" then
+    let ps ← (← j.array "pairs").mapM fun m => do
+      match m with
+      | .arr [a, b] => pure ((← a.asNat), (← b.asNat))
+      | _ => .error "pairs entry = [et, eid]"
+    pure (.rmMany ps)
   else if op = "rmh" then pure (.rmHandler (← j.nat "hid") (← optNatOf j "et"))
   else if op = "rme" then pure (.rmEid (← j.nat "eid") (← optNatOf j "et"))
   else if op = "rmp" then pure (.rmPair (← j.nat "et") (← j.nat "eid") (← optNatOf j "et2"))
@@ -77,7 +87,7 @@ def parseScripts (n : Nat) (j : J) : Except String (List (Nat × List Script)) :
 
 def nCalls (hid : Nat) : List Ev → Nat
   | [] => 0
-  | .call _ _ e :: l => (if e.hid = hid then 1 else 0) + nCalls hid l
+  | .call _ _ e live :: l => (if e.hid = hid && live then 1 else 0) + nCalls hid l
   | _ :: l => nCalls hid l
 
 def mkBeh (tbl : List (Nat × List Script)) : Beh := fun hid log =>
@@ -107,11 +117,16 @@ def resJ : Res → J
   | .ok (.pair et eid) => .arr [.str "pair", .num et, .num eid]
   | .ok (.pairs l) => .arr [.str "pairs", .arr (l.map fun p => .arr [.num p.1, .num p.2])]
 
-def evJ : Ev → Option J
-  | .call f i e => some (.arr [.str "call", .num f, .num i, .num e.eid, .num e.hid])
-  | .ret f e r h => some (.arr [.str "ret", .num f, .num e.eid, .num e.hid, retJ r, .bool h])
-  | .res r => some (.arr [.str "res", resJ r])
-  | _ => none
+/-- the observable part of the log: a `call` of a dead proxy (and the `ret` that goes with it) never reaches Python code -/
+def renderLog : List Ev → Option Nat → List J
+  | [], _ => []
+  | .call f i e live :: l, sk =>
+    if live then .arr [.str "call", .num f, .num i, .num e.eid, .num e.hid] :: renderLog l sk else renderLog l (some f)
+  | .ret f e r h :: l, sk =>
+    if sk = some f then renderLog l none
+    else .arr [.str "ret", .num f, .num e.eid, .num e.hid, retJ r, .bool h] :: renderLog l sk
+  | .res r :: l, sk => .arr [.str "res", resJ r] :: renderLog l sk
+  | _ :: l, sk => renderLog l sk
 
 def frameJ : Ev → Option J
   | .begin f i et snap => some (.arr [.num f, .num i, .num et, .arr (snap.map fun e => .num e.eid)])
@@ -138,7 +153,7 @@ def handle (j : J) : Except String J := do
   let m := drive (mkBeh tbl) fuel (M.init v srcs ops)
   let idx := List.range n
   pure (J.mk [("finished", .bool m.finished),
-              ("log", .arr (m.log.filterMap evJ)),
+              ("log", .arr (renderLog m.log none)),
               ("frames", .arr (m.log.filterMap frameJ)),
               ("final", .arr (idx.map fun i =>
                   .arr ((m.srcs i).keys.map fun (k : Nat) => .arr [.num k, .arr (((m.srcs i).subscribers k).map entryJ)]))),
